@@ -57,6 +57,7 @@ def check(ctx: Ctx, rep: Report):
     rep.rule("C09.R1", "only InverterError subclasses escape the public coroutines for network-seeded causes", 30)
     rep.rule("C09.R2", "no exception escapes an event-loop callback (InvalidStateError unless dominated by a not-done() test)", 10)
     rep.rule("C09.R4", "the request is published (self.command, self.response_future bound) before the transport write that can synchronously call error_received", 2)
+    rep.rule("C09.R5", "no InverterError class is a subclass of an exception class the network-error handlers catch", 4)
     rep.rule("C09.R3", "_read_from_socket resets the failure counter on success, increments it once before every RequestFailedException and passes it on; execute is reached only through it", 5)
     mr = net_mayraise(ctx)
     inverr = prog.cls("InverterError")
@@ -172,6 +173,39 @@ def is_known_name(ctx: Ctx, fn, call: ast.Call) -> bool:
     return not ct.funcs or all(is_known(g, ctx.prog) for g in ct.funcs)
 
 
+def r5(ctx: Ctx, rep: Report):
+    """The library's own exceptions are outcomes, not network errors: no class of the InverterError family may be a
+    subclass of what the network-error handlers of the protocol layer catch (OSError, CancelledError, TimeoutError ...),
+    or a refusal / exhausted budget raised below is re-caught there and retried or converted."""
+    prog = ctx.prog
+    inverr = prog.cls("InverterError")
+    fam = prog.all_subclasses(inverr, include_self=True)
+    from .proto import proto_classes as _pcs
+    fns = [m for ci in list.__iter__(_pcs(ctx)) for c in prog.mro(ci) if isinstance(c, ClassInfo) for m in c.methods.values()]
+    fns += list(prog.cls("ProtocolCommand").methods.values()) + list(prog.cls("Inverter").methods.values())
+    seen = set()
+    for fn in fns:
+        if fn.qualname in seen:
+            continue
+        seen.add(fn.qualname)
+        for h in [x for x in ast.walk(fn.node) if isinstance(x, ast.ExceptHandler) and x.type is not None]:
+            try:
+                classes = prog.resolve_exc_expr(fn.module, h.type)
+            except AnalysisError:
+                continue
+            for c in classes:
+                if isinstance(c, ClassInfo):
+                    continue          # naming a class of the package is deliberate
+                hit = [e for e in fam if prog.is_subclass(e, c)]
+                cname = prog.exc_name(c)
+                if cname in ("Exception", "BaseException"):
+                    continue
+                rep.check(not hit, "C09.R5", "family-disjoint:%s:%s" % (fn.short, cname), fn.loc(h),
+                          "%s: the handler for %s cannot catch a library exception" % (fn.short, cname),
+                          bad="%s catches %s, which now includes %s: the library's own outcome exceptions are treated as network errors there (retried / converted to RequestFailedException)" % (
+                              fn.short, cname, ", ".join(sorted(e.name for e in hit))))
+
+
 def r3(ctx: Ctx, rep: Report):
     prog, res = ctx.prog, ctx.res
     inv = prog.cls("Inverter")
@@ -208,8 +242,11 @@ def r3(ctx: Ctx, rep: Report):
                       "failure path increments %s exactly once and passes it to RequestFailedException" % counter,
                       bad="_read_from_socket raises RequestFailedException after changing %s by %r and passing %s as the count [path %s]" % (
                           counter, delta, norm(arg) if arg is not None else "<missing>", p.describe(6)))
-    if nret == 0 or nraise < 2:
-        raise AnalysisError("_read_from_socket: expected a success path and two failure conversions, found %d/%d" % (nret, nraise))
+    if not paths:
+        raise AnalysisError("_read_from_socket: no path could be followed")
+    rep.check(nret > 0 and nraise >= 2, "C09.R3", "outcomes", rfs.loc(), "_read_from_socket has a success path and counts both kinds of failure (retries exhausted, request failed)",
+              bad="_read_from_socket: of the outcomes of execute() only %d success and %d counted failure path(s) remain (expected both MaxRetriesException and RequestFailedException to arrive here and be re-raised as RequestFailedException with the count): a failure kind no longer reaches its handler" % (nret, nraise))
+    r5(ctx, rep)
     # a refusal by the inverter is an answer, not a communication failure: the counting handlers must not catch it
     rejected = prog.cls("RequestRejectedException")
     for h in [x for x in ast.walk(rfs.node) if isinstance(x, ast.ExceptHandler)]:
